@@ -239,25 +239,31 @@ FragAllowed(f, ctx) ==
   /\ (f = "multi" => ctx # "tap")
   /\ (f = "multi_a" => ctx = "tap")
 
-RECURSIVE TypeOf(_, _)
-TypeOf(m, ctx) ==
+\* TypeOfG(m, ctx, tctx): ctx decides which fragments exist, tctx is the context the
+\* type *rules* see.  tctx = ctx gives the specification's type; tctx = "dev" gives
+\* the type under the library's named deviation D1 (d:X is never `u`).
+RECURSIVE TypeOfG(_, _, _)
+TypeOfG(m, ctx, tctx) ==
   LET f == m.f IN
   IF ~FragAllowed(f, ctx) THEN BadType
   ELSE IF f \in {"multi", "multi_a"} THEN
-    IF m.n >= 1 /\ m.n <= Len(m.ks) THEN SpecLeafType(f, ctx) ELSE BadType
-  ELSE IF Len(m.xs) = 0 THEN SpecLeafType(f, ctx)
+    IF m.n >= 1 /\ m.n <= Len(m.ks) THEN SpecLeafType(f, tctx) ELSE BadType
+  ELSE IF Len(m.xs) = 0 THEN SpecLeafType(f, tctx)
   ELSE IF f \in Wrappers THEN
-    LET x == TypeOf(m.xs[1], ctx) IN IF x.ok THEN SpecUnType(f, x, ctx) ELSE BadType
+    LET x == TypeOfG(m.xs[1], ctx, tctx) IN IF x.ok THEN SpecUnType(f, x, tctx) ELSE BadType
   ELSE IF f \in BinFrags THEN
-    LET x == TypeOf(m.xs[1], ctx) y == TypeOf(m.xs[2], ctx) IN
-    IF x.ok /\ y.ok THEN SpecBinType(f, x, y, ctx) ELSE BadType
+    LET x == TypeOfG(m.xs[1], ctx, tctx) y == TypeOfG(m.xs[2], ctx, tctx) IN
+    IF x.ok /\ y.ok THEN SpecBinType(f, x, y, tctx) ELSE BadType
   ELSE IF f = "andor" THEN
-    LET x == TypeOf(m.xs[1], ctx) y == TypeOf(m.xs[2], ctx) z == TypeOf(m.xs[3], ctx) IN
-    IF x.ok /\ y.ok /\ z.ok THEN SpecAndOrType(x, y, z, ctx) ELSE BadType
+    LET x == TypeOfG(m.xs[1], ctx, tctx) y == TypeOfG(m.xs[2], ctx, tctx) z == TypeOfG(m.xs[3], ctx, tctx) IN
+    IF x.ok /\ y.ok /\ z.ok THEN SpecAndOrType(x, y, z, tctx) ELSE BadType
   ELSE IF f = "thresh" THEN
-    LET ts == [i \in 1..Len(m.xs) |-> TypeOf(m.xs[i], ctx)] IN
+    LET ts == [i \in 1..Len(m.xs) |-> TypeOfG(m.xs[i], ctx, tctx)] IN
     IF \A i \in 1..Len(ts) : ts[i].ok THEN SpecThreshType(m.n, ts) ELSE BadType
   ELSE BadType
+
+TypeOf(m, ctx)    == TypeOfG(m, ctx, ctx)
+TypeOfDev(m, ctx) == TypeOfG(m, ctx, "dev")
 
 (***************************************************************************)
 (* Worlds: what the caller holds and the transaction facts.                *)
